@@ -108,7 +108,7 @@ func fields(impl string) []*fieldrun.Field {
 				}
 				return r[z].Sqrt(&r[x]) == 1
 			},
-			FromBytes: func(z int, v *big.Int) bool { r[z].SetBytes(v.Bytes()); return true }, FromBytesMax: m1(pow2(800)), InvZeroDefined: true})
+			FromBytes: func(z int, v *big.Int) bool { r[z].SetBytes(v.Bytes()); return true }, FromBytesMax: m1(pow2(800)), InvZeroDefined: true, MontBits: 384})
 		var s [4]ff.Scalar
 		Ps := new(big.Int).SetBytes(ff.ScalarOrder())
 		fs = append(fs, &fieldrun.Field{Name: "bls12381scalar", Impl: "ecc/bls12381/ff.Scalar " + impl, P: Ps, Max: m1(Ps), NRegs: 4,
@@ -118,7 +118,7 @@ func fields(impl string) []*fieldrun.Field {
 			Sub: func(z, x, y int) { s[z].Sub(&s[x], &s[y]) }, Sqr: func(z, x int) { s[z].Sqr(&s[x]) },
 			Neg: func(z, x int) { s[z] = s[x]; s[z].Neg() }, Inv: func(z, x int) { s[z].Inv(&s[x]) },
 			IsZero: func(x int) bool { return s[x].IsZero() == 1 }, Eq: func(x, y int) bool { return s[x].IsEqual(&s[y]) == 1 },
-			FromBytes: func(z int, v *big.Int) bool { s[z].SetBytes(v.Bytes()); return true }, FromBytesMax: m1(pow2(600)), InvZeroDefined: true})
+			FromBytes: func(z int, v *big.Int) bool { s[z].SetBytes(v.Bytes()); return true }, FromBytesMax: m1(pow2(600)), InvZeroDefined: true, MontBits: 256})
 		// strict decoders
 		fs = append(fs, &fieldrun.Field{Name: "bls12381fp", Impl: "ecc/bls12381/ff.Fp.UnmarshalBinary " + impl, P: P, Max: m1(P), NRegs: 1,
 			Set: func(i int, v *big.Int) { r[i].SetBytes(v.Bytes()) }, Get: func(i int) *big.Int { b, _ := r[i].MarshalBinary(); return new(big.Int).SetBytes(b) },
@@ -140,7 +140,7 @@ func fields(impl string) []*fieldrun.Field {
 			Mul: func(z, x, y int) { r[z].Mul(&r[x], &r[y]) }, Add: func(z, x, y int) { r[z].Add(&r[x], &r[y]) },
 			Sub: func(z, x, y int) { r[z].Sub(&r[x], &r[y]) }, Sqr: func(z, x int) { r[z].Sqr(&r[x]) },
 			IsZero: func(x int) bool { return r[x].IsZero() }, Eq: func(x, y int) bool { return r[x].IsEqual(&r[y]) },
-			FromBytes: func(z int, v *big.Int) bool { return r[z].UnmarshalBinary(vlib.ToLE(v, 8)) == nil }, FromBytesStrict: true, FromBytesMax: m1(pow2(64))})
+			FromBytes: func(z int, v *big.Int) bool { return r[z].UnmarshalBinary(vlib.ToLE(v, 8)) == nil }, FromBytesStrict: true, FromBytesMax: m1(pow2(64)), MontBits: 64})
 		var q [4]fp128.Fp
 		P128 := new(big.Int).SetBytes(q[0].Order())
 		fs = append(fs, &fieldrun.Field{Name: "fp128", Impl: "vdaf/prio3/arith/fp128 " + impl, P: P128, Max: m1(P128), NRegs: 4,
@@ -152,7 +152,7 @@ func fields(impl string) []*fieldrun.Field {
 			Mul: func(z, x, y int) { q[z].Mul(&q[x], &q[y]) }, Add: func(z, x, y int) { q[z].Add(&q[x], &q[y]) },
 			Sub: func(z, x, y int) { q[z].Sub(&q[x], &q[y]) }, Sqr: func(z, x int) { q[z].Sqr(&q[x]) },
 			IsZero: func(x int) bool { return q[x].IsZero() }, Eq: func(x, y int) bool { return q[x].IsEqual(&q[y]) },
-			FromBytes: func(z int, v *big.Int) bool { return q[z].UnmarshalBinary(vlib.ToLE(v, 16)) == nil }, FromBytesStrict: true, FromBytesMax: m1(pow2(128))})
+			FromBytes: func(z int, v *big.Int) bool { return q[z].UnmarshalBinary(vlib.ToLE(v, 16)) == nil }, FromBytesStrict: true, FromBytesMax: m1(pow2(128)), MontBits: 128})
 	}
 	l25519, _ := new(big.Int).SetString("7237005577332262213973186563042994240857116359379907606001950938285454250989", 10)
 	for _, gi := range []struct {
